@@ -381,6 +381,9 @@ def run_family(ctx, pid, progs, canary=None, per=60, compile_violation=True, ext
     stats = {"programs": len(progs), "kani_harnesses": 0, "kani_verified": 0, "kani_wall_s": 0.0, "rustc_wall_s": 0.0,
              "programs_rejected_by_rustc": 0, "canary_refuted": None, "crates": 0}
     byname = {p.name: p for p in progs}
+    # which back-end mode discharges the obligations (see DESIGN 2.3): proof_for_contract vs. the same postcondition asserted in a loop-free harness
+    stats["harnesses_proof_for_contract"] = sum(p.text.count("#[kani::proof_for_contract(") for p in progs)
+    stats["harnesses_assert_mode"] = sum(p.text.count("#[kani::proof]") for p in progs)
     for ci in range(0, len(progs), per):
         c = ECrate(pid, "c%02d" % (ci // per), extra_support)
         for p in progs[ci:ci + per]:
